@@ -18,6 +18,7 @@ def scale_ivl(f, k):
 
 class C19(Prop):
     id = 'C19'
+    rule_added = '25%: another dense-time object is evaluated in between and the first one again (identical result demanded).'
     rule = ('random formulas of the stated fragment (arithmetic, six comparisons, Boolean, once/historically bounded '
             'or not, bounded eventually/always; depth<=4) with bounds that are multiples of the period in {1, 1/2, 2, '
             '1/4} x step signals of 2..20 samples on the grid: the same data go through the real dense-time offline '
